@@ -54,9 +54,12 @@ claim("C08", "DESIGN.md 5/C08", "Lean 4 theorems (threshold map, inverse, monoto
       "mtmStats_spec / meanToMid_spec / curveZScore_spec: the mean-to-mid and curve-by-z-score commands return the piecewise-linear curve through the control points derived from the five statistics (minimum, maximum, mean, mean of the lower and of the upper part; zeros ignored or not) "
       "resp. from mean + z x deviation; cvtToFuzzy_meanToMid_curveZ_eq_clamp. On the implementation, on inputs that are binary fractions the conversions must return the exact value wherever it is one (thresholds to exactly +1 / -1 for every span 1-130).",
       TB + "z-score commands depend on sqrt: model parameter, driver instance = 20-digit rational root; cases within 1e-9 of a data-derived discontinuity are skipped and counted.")
-claim("C09", "DESIGN.md 5/C09", "Lean 4 heap-model theorems (execH_preserves, execH_refines) + before/after snapshots of every live array around every real execute",
+claim("C09", "DESIGN.md 5/C09", "Lean 4 heap-model theorems (execH_preserves, execH_refines; history_preserves by induction over any history of executions) + before/after snapshots of every live array around every real execute",
       "Heap model execH makes aliasing (single-input Minimum/Maximum/FuzzyOr/FuzzyAnd return the input object) and the in-place clamp explicit. Theorem execH_preserves: one "
       "step leaves every existing object visibly unchanged provided fuzzy inputs are fuzzy values (C04); execH_refines: the result object is exec's result. "
+      "MPilot.C09 (Props/C09Hist.lean): history_preserves / history_preserves_from - over ANY history of executions on the heap of live results (any commands, any of the objects, any order, any "
+      "repetition, failing executions included) every object is visibly unchanged from the moment it exists on; the range premise of the aliasing pair is not assumed but discharged along the way "
+      "(stepOp_ok: objects made by fuzzy producers are in range by C04.fuzzy_range and stay so, inRange_of_ArrR), the only premise being the typing discipline parameter validation enforces (Disc: the fuzzy pair is given fuzzy fields). "
       "Which bodies allocate fresh arrays is a modelling fact validated by the correspondence (aliasing facts + snapshots of inputs after each execute, sequences of up to 8 consumers).",
       TB)
 
@@ -99,7 +102,10 @@ claim("C12", "DESIGN.md 5/C12", "Lean 4 iff-characterisations of load and pre-pa
 claim("C13", "DESIGN.md 5/C13", "Lean 4 theorems on the error algebra of the model + boundary correspondence + exception-type oracle at from_source()/run() and CLI subprocess runs",
       "Theorems in MPilot.C13: runCmd_not_raw (nothing but MPilotErrors leaves Command.run, whatever fails inside), fromNodes_not_raw, prepassCmd_not_raw (load and pre-pass raise "
       "MPilotErrors only, within the model's cleaning domain). A theorem ranges only over exception sources the model contains: new sources in the code are found by the correspondence "
-      "(unpredicted outcome class = disagreement) and by the boundary oracle over the kind-confusion matrix, corrupted files, 300 CSV fault runs through the real bodies, and the CLI.", PB)
+      "(unpredicted outcome class = disagreement) and by the boundary oracle over the kind-confusion matrix, corrupted files, 300 CSV fault runs through the real bodies, and the CLI. "
+      "The command-line tool itself is modelled (Model/Cli.lean: the lines it reads under universal newlines, the text it hands to the loader, standard error, exit status) - MPilot.C13Cli: mp_error_reported (an MPilot error gives exit status -1, "
+      "no escaping exception, and the header line followed by the error's own problem/solution text on standard error), success_silent, missing_file_reported, other_exception_not_success; the real tool is compared with the model character by character on "
+      "files of every line-end convention with a stand-in loader raising prepared errors (harness/clicorr.py) and on real faults.", PB)
 claim("C14", "DESIGN.md 5/C14", "Lean 4 soundness proof of the depth-first cycle check + cycle/acyclic graph enumeration correspondence + rejection oracles",
       "Theorems in MPilot.C14: cycle_rejected_before_execution (a detected cycle makes run return RecursiveModelStructure with log and memo untouched), visit_sound / no_cycle_ranked "
       "(if the check reports no cycle the reference graph has a rank function - so a model with any reference cycle, self-reference included, is never accepted, and by C01 evaluation "
@@ -116,7 +122,9 @@ claim("C10", "DESIGN.md 5/C10 and 9", "Lean theorems: characters -> tokens -> pr
       "parses to exactly that program with every node on the line it starts on; built from lexS_gap / spells_* (character level, Lemmas/Lex, incl. lexAll_fuel: the lexer's recursion bound never loses a token) and "
       "program_renders (token level, mutual induction over values; it exposed and fixed an inadequate recursion budget of the model). NOT covered by the theorem, and decided by the correspondence and the "
       "round-trip oracle on the implementation only: unquoted strings holding digits or several words (multi-token values), unquoted tuple keys that are no identifiers (tuples with quoted or identifier keys and quoted, identifier, integer or decimal values are covered), EEMS 2.0 command form, and the "
-      "rejection of malformed text other than bad escapes (partial as proof for those). Covered since round 6: unquoted text that is no identifier and holds no digit - one PLAIN_STRING token (%abc, /p/q.txt, non-ASCII words) or an identifier run followed at once by one (x.y, a-b) - is read back as exactly that text when a delimiter follows (RVal.plain / RVal.idPlain in expression_renders, spells_plain, scanOne_plain); "
+      "rejection of malformed text other than the classes below (partial as proof for those). MPilot.C10R (Props/C10Reject.lean), malformed text is rejected: accepted_neutral - every token list the grammar accepts is free of lexer-error tokens and has its square brackets and parentheses "
+      "properly nested and all closed (by induction over the mutually recursive expression / list / elements / tuple functions, arguments, commands, program) - hence error_token_rejected (an illegal character or a bad escape anywhere in the file makes the parser reject it, whatever surrounds it), "
+      "unbalanced_rejected (a missing, surplus or crossed bracket or parenthesis), parse_ok_text, empty_rejected, bad_start_rejected. Covered since round 6: unquoted text that is no identifier and holds no digit - one PLAIN_STRING token (%abc, /p/q.txt, non-ASCII words) or an identifier run followed at once by one (x.y, a-b) - is read back as exactly that text when a delimiter follows (RVal.plain / RVal.idPlain in expression_renders, spells_plain, scanOne_plain); "
       "any quoted string with user-written escapes is one STRING token holding what the decoder stringValue yields, and escapes the decoder refuses are a syntax error (QBody, quoted_any, spells_quoted_any, quoted_bad_escape; that stringValue is Python's unicode_escape on Latin-1/backslashreplace text is tied by correspondence). The executable model is compared with Parser().parse on every run over renderings of random abstract programs under random layouts, their "
       "single-character mutations and token soups (whole tree with line numbers, or error class). Every accepted text is also loaded with the real Program.from_source (a library that serves every command name): "
       "result names, command names, lines, argument names, values with their kinds, nesting and tuples handed to the commands must be those of the parse, whatever was loaded earlier in the process (texts differing "
@@ -124,7 +132,9 @@ claim("C10", "DESIGN.md 5/C10 and 9", "Lean theorems: characters -> tokens -> pr
       XB)
 claim("C11", "DESIGN.md 5/C11", "Lean theorems on line counting + differential correspondence incl. every line number + by-construction line oracles",
       "In the model a parse is a function of the text alone (history independence is definitional; the real Parser is compared after 0-3 earlier parses and earlier loads in the process). "
-      "Theorems in MPilot.C11 state what the line of a token is (1 + line breaks before it, CRLF once, line breaks inside quoted strings counted). Load-time and pre-pass errors carry the line of "
+      "Theorems in MPilot.C11 state what the line of a token is (1 + line breaks before it, CRLF once, line breaks inside quoted strings counted); MPilot.C11X (Props/C11Exact.lean) lex_line_exact: for EVERY text with LF or CR LF line ends - well-formed or not, any arrangement of blank lines, comments, "
+      "multi-line quoted strings - each token carries exactly 1 + the number of line feeds before the position at which it was scanned (scanOne_exact: each lexer rule consumes a prefix and advances the counter by its line feeds; countNewlines_eq_nl). "
+      "MPilot.C13Cli: marks_offending_line (the line the command-line tool marks with --> is line n of the file for an error naming line n, between its neighbours in file order: excerpt_contiguous, context_indented), source_lines / fileLines_clean (the text handed to the loader has exactly the file's lines under LF, CRLF or CR line ends). Load-time and pre-pass errors carry the line of "
       "the offending command/argument: load_error_line / load_error_line_parsed (whatever file is loaded, a load error is CommandDoesNotExist, DuplicateResult or MissingParameters with the line of the first command that cannot be added, "
       "or NoSuchParameter with the line of that command's undeclared argument - never a line that belongs to nothing in the file), prepassCmd_error_line / prepass_error_line (a validation error of Program.run carries the line of the declared argument whose "
       "cleaning failed, with that failure's class), together with C12's addCommand_errors and prepassCmd_first_error. Every fault kind is injected at a known line (lists written over several lines included; an error without a line where the pinned code gives one is a failure); cycles and run-time errors of real bodies are checked too; "
